@@ -156,6 +156,51 @@ class ClassInfo:
         return f"{self.module.rel}:{getattr(n, 'lineno', 0)}"
 
 
+class _Track(dict):  # type: ignore[type-arg]
+    """A dict that records which modules its readers consulted (the read set of a check: a
+    variant that changes none of them cannot change the verdict)."""
+
+    def __init__(self, sink: set[str], all_names: t.Callable[[], t.Iterable[str]]) -> None:
+        super().__init__()
+        self._sink = sink
+        self._all = all_names
+
+    def _note(self, key: t.Any) -> None:
+        if isinstance(key, str):
+            self._sink.add(key.split(":")[0])
+
+    def __getitem__(self, key: t.Any) -> t.Any:
+        self._note(key)
+        return super().__getitem__(key)
+
+    def get(self, key: t.Any, default: t.Any = None) -> t.Any:
+        self._note(key)
+        return super().get(key, default)
+
+    def __contains__(self, key: t.Any) -> bool:
+        self._note(key)
+        return super().__contains__(key)
+
+    def _everything(self) -> None:
+        self._sink.update(self._all())
+
+    def __iter__(self) -> t.Iterator[t.Any]:
+        self._everything()
+        return super().__iter__()
+
+    def values(self) -> t.Any:
+        self._everything()
+        return super().values()
+
+    def items(self) -> t.Any:
+        self._everything()
+        return super().items()
+
+    def keys(self) -> t.Any:
+        self._everything()
+        return super().keys()
+
+
 class Repo:
     def __init__(self, root: str | None = None, normalize: bool | None = None) -> None:
         self.root = root or REPO
@@ -166,18 +211,20 @@ class Repo:
             normalize = bool(os.environ.get("VERIF_NORMALIZE"))
         self.normalized = normalize
         self._raw: Repo | None = None
-        self.modules: dict[str, Module] = {}
+        self.touched: set[str] = set()
+        self.modules: dict[str, Module] = _Track(self.touched, lambda: list(dict.keys(self.modules)))
         for fn in sorted(os.listdir(self.pkgdir)):
             if fn.endswith(".py"):
                 name = fn[:-3]
                 self.modules[name] = Module(
                     name, os.path.join(self.pkgdir, fn), f"{PKG_REL}/{fn}", normalize
                 )
-        self._classes: dict[str, ClassInfo] = {}
-        for m in self.modules.values():
+        self._classes: dict[str, ClassInfo] = _Track(self.touched, lambda: list(dict.keys(self.modules)))
+        for m in dict.values(self.modules):
             for n, d in m.defs.items():
                 if isinstance(d, ast.ClassDef):
                     self._classes[f"{m.name}:{n}"] = ClassInfo(m, d)
+        self.touched.clear()  # (construction itself reads nothing on behalf of a rule)
 
     @property
     def raw(self) -> "Repo":
